@@ -231,9 +231,11 @@ impl MuniicPlugin {
             warnings.push(format!("No json files found in directory: {}", json_dir));
         } else {
             for file in &files {
-                let cfg_file: Result<MuniicJsonConfig, _> =
-                    serde_json::from_str(&std::fs::read_to_string(file).unwrap());
-                if let Ok(cfg_file) = cfg_file {
+                // a file that cannot be read (e.g. not utf-8) is treated like one that cannot be parsed
+                let cfg_file: Option<MuniicJsonConfig> = std::fs::read_to_string(file)
+                    .ok()
+                    .and_then(|s| serde_json::from_str(&s).ok());
+                if let Some(cfg_file) = cfg_file {
                     cfg.map.extend(cfg_file.map);
                     cfg.interfaces.extend(cfg_file.interfaces);
                 } else {
